@@ -16,7 +16,7 @@ t=$( cd $wt && go test -vet=off -count=1 ./... 2>&1 | grep -E '^(--- FAIL|FAIL|o
 case "$t" in *"--- FAIL: TestGoGenerateVendoredPackages"*) tt=$(echo "$t" | grep -o -- '--- FAIL: [A-Za-z/_]*' | grep -v TestGoGenerateVendoredPackages | tr '\n' ' ');; *) tt="(baseline failure missing?) $t";; esac
 [ -z "$tt" ] && tests=ok || tests="FAIL[$tt]"
 dp=skip; du=skip
-if [ -f "$src/demo/run.sh" ]; then
+if [ -f "$src/demo/run.sh" ] && [ -z "$SKIP_DEMO" ]; then
   ( cd "$src/demo" && timeout 900 bash ./run.sh $wt ) >>$log 2>&1; dp=$?
   ( cd "$src/demo" && timeout 900 bash ./run.sh $base ) >>$log 2>&1; du=$?
 fi
